@@ -232,7 +232,16 @@ def exclusions(X: GP, xa, blocked):
     return out
 
 
-def q_nocounterpart(X: GP, Y: GP, costs=True, blocked=(), path="auto"):
+def nonempty_constraints(G: GP, x, sigs):
+    """for every signature in `sigs`: at least one of its atoms is true in G (false if it has no atom)"""
+    groups = {sg: [] for sg in sigs}
+    for a, sg in G.sig.items():
+        if a in G.atoms and sg in groups:
+            groups[sg].append(x[a])
+    return [OR(v) for _, v in sorted(groups.items())]
+
+
+def q_nocounterpart(X: GP, Y: GP, costs=True, blocked=(), path="auto", nonempty=None):
     """query: exists an instance and an answer set of X without an equally priced answer set of Y that
     has the same visible part.  Returns (smt text | None, xa map, path used, reason)"""
     enc = Enc()
@@ -254,12 +263,22 @@ def q_nocounterpart(X: GP, Y: GP, costs=True, blocked=(), path="auto"):
         for a in sorted(Y.hidden):
             xb[a] = enc.bvar(f"b{a}")
         enc_stable(enc, Y, xb, "B", heads=Y.hidden)
+        if nonempty:
+            side, regexes = nonempty
+            for f in nonempty_constraints(X if side == "X" else Y, xa if side == "X" else xb, regexes):
+                enc.add(f)
         nocp.append(f_notstable(enc, Y, xb, "B"))
         if costs:
             nocp += cost_differs(cost_terms(X, xa), cost_terms(Y, xb))
         enc.add(OR(nocp))
         return enc, xa, "fast", ""
     # slow path: keep the universal quantifier over Y's hidden atoms and level variables
+    if nonempty:
+        if nonempty[0] == "X":
+            for f in nonempty_constraints(X, xa, nonempty[1]):
+                enc.add(f)
+        else:
+            return None, xa, "slow", "known-finding exclusion cannot be expressed on the slow path"
     if not Y.head_cycle_free():
         return None, xa, "slow", "non-HCF disjunction on the IsStable side"
     inner = Enc()
